@@ -292,6 +292,12 @@ fn values<W: Write>(r: &mut Rng, cfg: &TermCfg, n: usize, o: &mut Out<W>) {
                 if back != format!("ok {canon}") {
                     o.fail("C01", f, "parse(format(v)) != v", &format!("value={raw} text={hs} got={back}"));
                 }
+                // the lexical pipeline on the enum formatter's own output (C03)
+                let lf = o.run("lfold", f, hs);
+                o.checked("C03");
+                if lf != back || !lf.starts_with("ok ") {
+                    o.fail("C03", f, "enum parse != fold(lexical parse) on the enum formatter's output", &format!("value={raw} text={hs} enum={back} lexfold={lf}"));
+                }
                 o.checked("C15");
             } else {
                 o.checked("C12");
